@@ -1038,6 +1038,7 @@ func (pc *PeerConnection) setDescription(sd *SessionDescription, op stateChangeO
 				nextState, err = checkNextSignalingState(cur, SignalingStateStable, setLocal, sd.Type)
 				if err == nil {
 					pc.pendingLocalDescription = nil
+					pc.pendingRemoteDescription = nil
 				}
 			// have-remote-offer->SetLocal(pranswer)->have-local-pranswer
 			case SDPTypePranswer:
@@ -1073,6 +1074,7 @@ func (pc *PeerConnection) setDescription(sd *SessionDescription, op stateChangeO
 				nextState, err = checkNextSignalingState(cur, SignalingStateStable, setRemote, sd.Type)
 				if err == nil {
 					pc.pendingRemoteDescription = nil
+					pc.pendingLocalDescription = nil
 				}
 			// have-local-offer->SetRemote(pranswer)->have-remote-pranswer
 			case SDPTypePranswer:
@@ -1110,6 +1112,11 @@ func (pc *PeerConnection) setDescription(sd *SessionDescription, op stateChangeO
 func (pc *PeerConnection) SetLocalDescription(desc SessionDescription) error {
 	if pc.isClosed.Load() {
 		return &rtcerr.InvalidStateError{Err: ErrConnectionClosed}
+	}
+
+	// JSEP 4.1.10.2: a rollback carries no SDP, it only cancels the pending exchange.
+	if desc.Type == SDPTypeRollback {
+		return pc.setDescription(&desc, stateChangeOpSetLocal)
 	}
 
 	haveLocalDescription := pc.currentLocalDescription != nil
@@ -1183,6 +1190,11 @@ func (pc *PeerConnection) LocalDescription() *SessionDescription {
 func (pc *PeerConnection) SetRemoteDescription(desc SessionDescription) error {
 	if pc.isClosed.Load() {
 		return &rtcerr.InvalidStateError{Err: ErrConnectionClosed}
+	}
+
+	// JSEP 4.1.10.2: a rollback carries no SDP, it only cancels the pending exchange.
+	if desc.Type == SDPTypeRollback {
+		return pc.setDescription(&desc, stateChangeOpSetRemote)
 	}
 
 	isRenegotiation := pc.currentRemoteDescription != nil
